@@ -508,6 +508,9 @@ class PreparedStatementPlanner():
 
         if params is not None:
 
+            if stmt.params is None:
+                raise PlanningException("Statement is already executed")
+
             if len(params) != len(stmt.params):
                 raise PlanningException("Count of execution parameters don't match prepared statement")
 
